@@ -57,6 +57,8 @@ func runHistory(c *core.Ctx, r *core.Rand, o histOpts) {
 			c.Count("fan_in_steps", 1)
 		} else if o.FanIn && t >= o.NTx-13 {
 			ops = setSwapOps(e, t-(o.NTx-13))
+		} else if o.FanIn && t >= o.NTx-16 && len(e.EmpPool) > 0 && e.EmpPool[len(e.EmpPool)-2] == "D1" {
+			ops = sameIdOps(e, t-(o.NTx-16)) // id universes are shared: an employee and its department with the same id
 		}
 		if len(ops) == 0 {
 			continue
@@ -102,6 +104,35 @@ func runHistory(c *core.Ctx, r *core.Rand, o histOpts) {
 	if c.WantSample() {
 		c.Sample(map[string]any{"cfg": o.Cfg.String(), "first_transactions": tailHistHead(hist, 3)})
 	}
+}
+
+// sameIdOps (shared id universes only): department "D1", an employee with the same id "D1" that references it and is
+// moved to the front of nobody else's list, then the delete of the department - refused, or cascading to the employee,
+// depending on the wiring.
+func sameIdOps(e *kmodel.Engine, step int) []kmodel.Op {
+	_, haveDept := e.M.Ents[kmodel.Depts]["D1"]
+	_, haveEmp := e.M.Ents[kmodel.Emps]["D1"]
+	switch step {
+	case 0:
+		if haveDept {
+			return nil
+		}
+		return []kmodel.Op{{Kind: "create", Store: kmodel.Depts, Id: "D1", V: map[string]any{"name": nil}}}
+	case 1:
+		if !haveDept {
+			return nil
+		}
+		v := map[string]any{"name": "same-id", "nick": nil, "title": "t1", "roles": []string{"r1"}, "dept": "D1", "boss": nil, "grade": nil}
+		if !e.Cfg.BossNullable {
+			v["boss"] = "D1"
+		}
+		kind := "create"
+		if haveEmp {
+			kind = "update"
+		}
+		return []kmodel.Op{{Kind: kind, Store: kmodel.Emps, Id: "D1", V: v}}
+	}
+	return []kmodel.Op{{Kind: "delete", Store: kmodel.Depts, Id: "D1"}}
 }
 
 // setSwapOps scripts four patches of one employee's set field with values whose concatenations collide: {ab, c} ->
